@@ -329,6 +329,7 @@ def execute(case):
             tm_arg = {'T_mid': [v, int(v) if float(v).is_integer() else v, np.float64(v)][fi]}
         else:
             tm_arg = {'T_mid': [list(brk), tuple(brk), np.array(brk)][fi]}
+    obj2 = None
     e = {'ev': 'fit', 'fam': fam, 'src': 'statmech' if (model is not None and src not in ('const', 'zero')) else src,
          'st': 'ok'}
     info = {'T_low': T_low, 'T_high': T_high, 'brk': brk, 'T_ref': T_ref, 'units': units, 'npts': int(len(T)),
@@ -377,6 +378,11 @@ def execute(case):
             info['ref_types'] = [type(T_ref_arg).__name__, type(href_arg).__name__]
             obj = cls.from_data(name='fit', T=Tin, CpoR=Cpin, T_ref=T_ref_arg, HoRT_ref=href_arg, SoR_ref=sref_arg,
                                 elements={'C': 1, 'H': 4}, phase='S', **tm_arg, **extra)
+            if fam == 'nasa7' and case['tmid'] == 'list':
+                # the fit returned for a LIST of guesses is the fit at the guess it reports: refit with that scalar
+                tm0 = obj.T_mid[0] if isinstance(obj.T_mid, (list, tuple)) else obj.T_mid
+                obj2 = cls.from_data(name='fit', T=Tin, CpoR=Cpin, T_ref=T_ref_arg, HoRT_ref=href_arg,
+                                     SoR_ref=sref_arg, elements={'C': 1, 'H': 4}, phase='S', T_mid=float(tm0), **extra)
         else:
             m = model if model is not None else _PolyModel(fam, pieces[0], units, T_low, T_high)
             if model is None and mform != 'attrs' and case['cseed'] % 2:
@@ -409,6 +415,9 @@ def execute(case):
                 kw.update(extra)
                 kw['n_T'] = n
             obj = cls.from_model(**kw)
+            if fam == 'nasa7' and case['tmid'] == 'list':
+                tm0 = obj.T_mid[0] if isinstance(obj.T_mid, (list, tuple)) else obj.T_mid
+                obj2 = cls.from_model(**dict(kw, T_mid=float(tm0)))
             # reference used by the library: mid-window (NASA-7, Shomate) / T_low (NASA-9)
             T_ref = T_low if fam == 'nasa9' else 0.5 * (T_low + T_high)
             _, href, sref = (float(m.get_CpoR(T=T_ref)), float(m.get_HoRT(T=T_ref)), float(m.get_SoR(T=T_ref)))
@@ -482,10 +491,14 @@ def execute(case):
             while jr < len(oedges) - 2 and T_ref > oedges[jr + 1]:
                 jr += 1
             npt = min(segcount[min(j, jr):max(j, jr) + 1])
-            samples.append([to_dec(t)] + [to_dec(x) for x in f] + [to_dec(x) for x in s] + [min(npt, 99)])
+            samples.append([to_dec(t)] + [to_dec(x) for x in f] + [to_dec(x) for x in s] + [min(npt, 99), min(segcount[j], 99)])
             for q in range(3):
                 worst[q] = max(worst[q], abs(f[q] - s[q]))
         e['samples'] = samples
+        # Cp/R, H/RT, S/R of the scalar refit at the same sample temperatures ([] when no list of guesses was given)
+        e['refit'] = [] if obj2 is None else [[to_dec(float(np.squeeze(g(T=float(t))))) for g in
+                                               (obj2.get_CpoR, obj2.get_HoRT, obj2.get_SoR)]
+                                              for t in np.linspace(T_low, T_high, 25)]
         info['worst_abs_dev'] = worst
         info['obj_breaks'] = obrk
     except Exception as ex:
